@@ -420,7 +420,7 @@ def _core(cont, fault, pos, depth, lead, amb, lockmode, v0, v1, v2,
     elif lockmode == 2:
       if not isinstance(exc, RuntimeError):
         return rt.no('8b: a locked configuration rejects the first binding with RuntimeError')
-      bad = _check_where(str(exc), shown(f_file), [f_line], f_chain, shown)
+      bad = _check_where(str(exc), shown(f_file), [f_line], f_chain, shown, [shown(f) for f in files])
       if bad:
         return rt.no(bad)
     else:
@@ -439,7 +439,7 @@ def _core(cont, fault, pos, depth, lead, amb, lockmode, v0, v1, v2,
           if getattr(exc, 'filename', None) != fname:
             return rt.no('10: if getattr(exc, "filename", None) != fname:')
         else:
-          bad = _check_where(msg, fname, lines_ok, f_chain, shown)
+          bad = _check_where(msg, fname, lines_ok, f_chain, shown, [shown(f) for f in files])
           if bad:
             return rt.no(bad)
     # ---- later parsing behaves as after the prefix alone -------------------------------------
@@ -494,31 +494,58 @@ def _same_prov(plines, prov, shown):
       return '14: if len(hit) != 1 or plines[hit[0] - 1] != tag:'
     above = plines[hit[0] - 1] if hit[0] else ''
     if fn == 'API':
-      if above.startswith('# Set in'):
-        return '14b: a binding made through bind_parameter carries no "# Set in" comment'
-    elif above != '# Set in %s:%d:' % (shown(fn) or 'bindings string', line):
+      if above.startswith('#') and _loc_lines(above):
+        return '14b: a binding made through bind_parameter carries no provenance comment'
+    elif not (above.startswith('#') and len(_loc_lines(above)) == 1 and
+              _mentions([above], shown(fn), line) == 1):    # today: '# Set in <file or "bindings string">:<line>:'
       if __import__('os').environ.get('VERIF_EXPLAIN'):
         print('PROV', label, fn, line, above)
       return '14: if len(hit) != 1 or plines[hit[0] - 1] != tag:'
   return None
 
 
-def _check_where(msg, fname, lines_ok, chain, shown):
+def _loc_lines(msg, known=None):
+  """The lines of a message that state a location: they name one of the files of the scenario (`known`; without
+  it any `*.gin` name) or the 'bindings string', and carry a number standing on its own.  (The wording around
+  them is Gin's business: today `In file "f", line N`.)"""
+  import re
+  out = []
+  for line in msg.split('\n'):
+    if known is None:
+      named = re.search(r'[\w./-]+\.gin\b', line) or 'bindings string' in line
+    else:
+      named = 'bindings string' in line or any(k and k in line for k in known)
+    if named and re.search(r'(?<![\w.])\d+(?![\w.])', line):
+      out.append(line)
+  return out
+
+
+def _mentions(loc_lines, fname, line):
+  import re
+  n = 0
+  for l in loc_lines:
+    names_it = (fname in l) if fname else ('bindings string' in l and not re.search(r'[\w./-]+\.gin\b', l))
+    if names_it and re.search(r'(?<![\w.])%d(?![\w.])' % line, l):
+      n += 1
+  return n
+
+
+def _check_where(msg, fname, lines_ok, chain, shown, known=None):
   """A semantic error names the file and the line of the offending statement, once per level of the chain."""
-  where = 'In file "%s", line ' % fname if fname else 'In bindings string line '
-  if not any((where + str(l) + '\n') in msg for l in lines_ok):
-    return '11: if not any((where + str(l) + "\n") in msg for l in lines_ok):'
-  if msg.count(where) != 1:
-    return '12: if msg.count(where) != 1:'
+  locs = _loc_lines(msg, known)
+  hits = [l for l in lines_ok if _mentions(locs, fname, l)]
+  if not hits:
+    return '11: the message does not name %r with one of the lines %r' % (fname or 'bindings string', lines_ok)
+  if sum(_mentions(locs, fname, l) for l in set(lines_ok)) != 1:
+    return '12: the offending location is named more than once'
   # ... and once for each level of the include chain
   for fn, line in chain:
-    fn = shown(fn)
-    w2 = ('In file "%s", line %d\n' % (fn, line)) if fn else ('In bindings string line %d\n' % line)
-    if msg.count(w2) != 1:
-      return '13: if msg.count(w2) != 1:'
+    if _mentions(locs, shown(fn), line) != 1:
+      return '13: the include level %r line %d is not named exactly once' % (shown(fn) or 'bindings string', line)
   # ... and no level more than the chain has (e.g. a file that had already been left)
-  if msg.count('\n  In file "') + msg.count('\n  In bindings string line ') != len(chain) + 1:
-    return '13b: the message names exactly one location per level of the include chain'
+  if len(locs) != len(chain) + 1:
+    return '13b: the message names exactly one location per level of the include chain (%d named, %d levels)' % (
+        len(locs), len(chain) + 1)
   return None
 
 
